@@ -263,7 +263,8 @@ def enum_cases(tier):
             out.append({"kind": "prod", "n": n, "x": list(x)})
     for n in range(1, 5):
         for signs in itertools.product([-1, 0, 1], repeat=n):
-            out.append({"kind": "abs", "vals": [s * (0.75 + i) for i, s in enumerate(signs)], "coefs": [1, 2, 0.5, 3][:n]})
+            for coefs in ([1, 2, 0.5, 3], [0, 1, 0, 2], [2, 0, 1, 0]):  # zero weights are legal (e.g. cn_pce_penalty=0)
+                out.append({"kind": "abs", "vals": [s * (0.75 + i) for i, s in enumerate(signs)], "coefs": coefs[:n]})
     return out
 
 
@@ -278,7 +279,7 @@ def strategy(tier):
             st.tuples(st.just("excl"), st.lists(st.integers(0, 7), min_size=2, max_size=2), st.just(0))).map(list), max_size=4),
         "prods": st.lists(st.tuples(st.lists(st.integers(0, 7), min_size=1, max_size=3), st.integers(0, 100)).map(list), max_size=2),
         "pen": st.lists(st.integers(0, 100), min_size=nb, max_size=nb),
-        "w": st.lists(st.sampled_from([1, 1, 2]), min_size=5, max_size=5),
+        "w": st.lists(st.sampled_from([1, 1, 2, 0, 0.5]), min_size=5, max_size=5),
     }))
     audit = st.fixed_dictionaries({"kind": st.just("audit"), "stage": st.sampled_from(["cn", "major", "minor"]),
                                    "gap": st.sampled_from([0, 0.1, 0.3]), "seed": st.integers(0, 10 ** 6)})
